@@ -520,6 +520,9 @@ class CallMixin:
         lty = it.ty
         self.ctx.note_ty(lty)
         j = self.ctx.fresh_term(z3.IntSort(), "lc")
+        from . import core as _core0
+
+        start_n = _core0._counter.n
         saved = dict(self.ctx.locals)
         # the element expression may raise (e.g. d[k]): check it for an
         # arbitrary in-range index satisfying the filter
@@ -542,8 +545,38 @@ class CallMixin:
             extra = self.ctx.pc[pc_len:]
             del self.ctx.pc[pc_len:]
             self.ctx.locals = saved
-        # obligations recorded inside were assumed into pc; re-assume them
-        # universally is not needed (they were proved for arbitrary j).
+        # Symbols created while evaluating the element for the arbitrary index j (results of contract calls, fresh
+        # strings, ...) are values *per index*: turn each into a function of the index and keep what was assumed
+        # about it, universally over the index range.
+        from . import core as _core
+
+        fresh = {}
+        def collect(e):
+            if z3.is_const(e) and e.decl().kind() == z3.Z3_OP_UNINTERPRETED:
+                nm = e.decl().name()
+                mm = re.search(r"!(\d+)$", nm)
+                if mm and int(mm.group(1)) > start_n and not z3.eq(e, j):
+                    fresh[nm] = e
+            elif z3.is_app(e):
+                for ch in e.children():
+                    collect(ch)
+            elif z3.is_quantifier(e):
+                collect(e.body())
+        collect(val.t)
+        if fresh:
+            for a in extra:
+                collect(a)
+            subs = []
+            for nm, c0 in fresh.items():
+                F = z3.Function(f"sk_{nm}", z3.IntSort(), c0.sort())
+                subs.append((c0, F(j)))
+            val = SV(val.ty, z3.substitute(val.t, *subs))
+            conds = [z3.substitute(c, *subs) for c in conds]
+            jq = z3.Int("j!sk")
+            rng_j = z3.And(0 <= jq, jq < lty.len(it.t))
+            for a in extra[1:]:  # extra[0] is the range assumption on j itself
+                body = z3.substitute(z3.substitute(a, *subs), (j, jq))
+                self.ctx.assume(sorts.forall([jq], z3.Implies(rng_j, body), patterns=[z3.Select(lty.arr(it.t), jq)]))
         rty = TList(val.ty)
         self.ctx.note_ty(rty)
         cond = z3.And(*conds) if conds else z3.BoolVal(True)
